@@ -8,7 +8,7 @@ from .core import Violation, Reject, crash
 PID = "C05"
 LEVEL = "exploration"
 RULE = ("C03 systems with mixed residue sizes in cubic and rectangular boxes from 3 nm (so that chains cross box "
-        "faces), user grids, step factors 0.7-1.2, force limits 1e3-1e5, dilute and moderately dense; every call "
+        "faces), user grids (points with up to seven decimals), step factors 0.7-1.2, force limits 1e3-1e5, dilute and moderately dense; every call "
         "of NonBondEngine.add_positions is intercepted and judged against the engine state at that moment: point "
         "inside [0,L)^3; a residue-graph neighbour already positioned at minimum-image distance step_factor * "
         "mean size (rel 1e-9) unless it is a start placement, which must be a row of the start grid; no positioned "
